@@ -322,7 +322,7 @@ for _k in ('response', 'stream', 'channel', 'fnf'):
 SAS = SC + '.stop_all_streams'
 
 
-@harness('e.stop_all_streams', ['C11', 'C07', 'C10', 'C08'], functions=[SAS, BASE + '.stop_all_streams', SC + '.finish_stream'],
+@harness('e.stop_all_streams', ['C11', 'C07', 'C10', 'C08', 'C17', 'C09'], functions=[SAS, BASE + '.stop_all_streams', SC + '.finish_stream'],
          replay='e_stop_all_streams',
          assumptions=['the stream table is finite; handlers are abstract (K-HANDLER): frame_received / dispose may raise any Exception '
                       '(they call application code) and do not register new streams',
@@ -515,12 +515,18 @@ def connection_level_handlers(E):
          replay='e_exception_to_error_frame')
 def exc_to_error(E):
     sid = E.fresh_int('sid', 0, 0x7FFFFFFF)
-    kind = E.path.choice(3, 'kind')
+    kind = E.path.choice(6, 'kind')
     codes = E.lookup('rsocket/error_codes.py::ErrorCode').members
     if kind == 0:
         ex = E.call(E.lookup('rsocket/exceptions.py::RSocketProtocolError'), [codes['REJECTED_SETUP']], dict(data='why'))
     elif kind == 1:
         ex = E.make_exc('ValueError', 'oops')
+    elif kind == 3:
+        ex = E.make_exc('KeyError', 7)                       # application exceptions carry any arguments: a non-string key,
+    elif kind == 4:
+        ex = E.make_exc('LookupError', b'raw', 3)            # several arguments of mixed types,
+    elif kind == 5:
+        ex = E.make_exc('RuntimeError')                      # or none at all
     else:
         # an application exception may carry any attributes of its own
         ex = E.make_exc('ValueError', 'validation failed')
